@@ -9,7 +9,7 @@ cd ${MUTROOT:-/tmp/mut}/$id || exit 2
 pk=$(go list ./... 2>/dev/null | grep -v zz_demo | grep -v zz_out)
 if go test -vet=off -count=1 $pk > /tmp/confirm_$id.suite 2>&1; then echo "suite-with-change: PASS"; else echo "suite-with-change: FAIL"; grep -v "^ok" /tmp/confirm_$id.suite | head -5; fi
 rundemo() {
-  if ls zz_demo/*_test.go zz_demo/*/*_test.go >/dev/null 2>&1; then go test -vet=off -count=1 ./zz_demo/... ; else go run ./zz_demo ; fi
+  if find zz_demo -name "*_test.go" | grep -q . ; then go test -vet=off -count=1 ./zz_demo/... ; else go run ./zz_demo ; fi
 }
 rundemo > /tmp/confirm_$id.with 2>&1; w=$?
 git apply -R zz_out/patch.diff
